@@ -91,6 +91,17 @@ func (w *World) ResolveFieldRenames(known map[string]string) []string {
 				cands = append(cands, f.Name())
 			}
 		}
+		if !found && len(cands) > 1 {
+			var same []string
+			for _, c := range cands {
+				if c == k[i+1:] {
+					same = append(same, c)
+				}
+			}
+			if len(same) == 1 {
+				cands = same
+			}
+		}
 		if !found && len(cands) == 1 {
 			fieldAlias[k[:i]+"."+cands[0]] = k
 			out = append(out, k+" -> "+cands[0])
@@ -121,9 +132,23 @@ func (w *World) ResolveFieldRenames(known map[string]string) []string {
 					}
 				}
 			}
+			if len(nested) > 1 {
+				// several fields of that type in the sub-struct: the one that kept the name
+				var same []string
+				for _, nk := range nested {
+					if nk[strings.LastIndex(nk, ".")+1:] == k[i+1:] {
+						same = append(same, nk)
+					}
+				}
+				if len(same) == 1 {
+					nested = same
+				}
+			}
 			if len(nested) == 1 {
-				fieldAlias[nested[0]] = k
-				out = append(out, k+" -> "+nested[0])
+				if _, taken := fieldAlias[nested[0]]; !taken {
+					fieldAlias[nested[0]] = k
+					out = append(out, k+" -> "+nested[0])
+				}
 			}
 		}
 	}
